@@ -36,6 +36,8 @@ def run_property(rep, prop, tier, rng, judge, rule, nspecs=None, opts=None, tag=
             iv, ia = t4.split_reply(c["impl"])
             mv, ma = t4.split_reply(c["model"])
             spec = res["specs"][c["k"]]
+            if iv.startswith("abort (not run)"):
+                continue
             verdict = judge(c, iv, ia, spec, mv, ma)
             if verdict == "skip":
                 continue
